@@ -482,8 +482,8 @@ End C01_translated_splice.
    RErr = -1; exhausted = end of file), one result consumed per call, block rl the log of the calls (fd, count asked for, result).
    The whole 1024-cell buffer handed to read must lie inside one live block (Err EOob otherwise).  sbuf_make / sbuf_mem /
    sbuf_buf / sbuf_free are the translated sbuf.c (the C01_tr_sbuf theorems); lbuf_edit is the oracle index X_lbuf_edit (edit_oracle: called
-   with a pointer to the start of a block holding a text and its terminator it returns, relates the memories by E, leaves the
-   younger blocks alone).
+   with a pointer to the start of a block holding the text t and its terminator it returns, relates the memories by E, leaves the
+   younger blocks alone; asked for the one text t the schedule delivers only).
    C01_tr_lbuf_rd: for EVERY schedule of results read(fd, buf, 1024) can have (rout_ok 1024: 1..1024 bytes, 0, -1), below 500 MB
    of text: lbuf_rd makes exactly the read(fd, buf, 1024) calls rd_log of the schedule up to its first result <= 0 and leaves the
    rest of the schedule (rd_rest);
@@ -502,15 +502,16 @@ Import CLite CLiteProps GenCFuncs CLiteExt IoReadDefs TrRead.
 Theorem C01_tr_lbuf_rd : forall ext rs rl m0 lb lo fd beg en s lg d fuel E,
   read_oracle ext rs rl -> rworld_at rs rl m0 s lg -> Forall (rout_ok 1024) s ->
   (Z.of_nat (length (concat (rd_chunks s))) <= 500000000)%Z -> (length s + 2 <= fuel)%nat ->
-  edit_oracle ext lb lo beg en (length m0) E ->
   let t := concat (rd_chunks s) in
+  (rd_ok s = true -> edit_oracle ext lb lo beg en (length m0) t E) ->
   let old m := forall k, (k < length m0)%nat -> k <> rs -> k <> rl -> nth_error m k = nth_error m0 k in
   if rd_ok s then
     exists m1 m2 tb rest,
       callx ext cprog fuel (S (S (S d))) F_lbuf_rd [VPtr lb lo; VInt fd; VInt beg; VInt en] m0
       = Ok (VInt 0, upd (upd m2 tb []) (S (length m0)) []) /\
-      nth_error m1 tb = Some (map VInt (zb t) ++ VInt 0 :: rest) /\ (length m0 + 2 <= tb)%nat /\
-      rworld_at rs rl m1 (rd_rest s) (lg ++ rd_log fd s) /\ old m1 /\ E t m1 m2
+      nth_error m1 tb = Some (map VInt (zb t) ++ VInt 0 :: rest) /\ (length m0 + 2 <= tb)%nat /\ (length m0 + 2 <= length m1)%nat /\
+      rworld_at rs rl m1 (rd_rest s) (lg ++ rd_log fd s) /\ old m1 /\ E m1 m2 /\
+      (forall k, (length m0 <= k < length m1)%nat -> nth_error m2 k = nth_error m1 k)
   else
     exists mf,
       callx ext cprog fuel (S (S (S d))) F_lbuf_rd [VPtr lb lo; VInt fd; VInt beg; VInt en] m0 = Ok (VInt 1, mf) /\
@@ -539,7 +540,7 @@ Print Assumptions C01_read_sched_model.
 Example C01_tr_lbuf_rd_nonvacuous :
   let s1 := [RChunk [97; 98; 10; 99]%N; RChunk [100; 10]%N; REof; RChunk [122]%N] in
   let s2 := [RChunk [97; 98; 10; 99]%N; RErr; REof] in
-  read_oracle (rsys 1 2 3) 1 2 /\ edit_oracle (rsys 1 2 3) 0 0 2 2 4 (logged 3 2 2) /\
+  read_oracle (rsys 1 2 3) 1 2 /\ edit_oracle (rsys 1 2 3) 0 0 2 2 4 (concat (rd_chunks s1)) (logged 3 2 2 (concat (rd_chunks s1))) /\
   rworld_at 1 2 [[VInt 0]; enc_rs s1; []; []] s1 [] /\ Forall (rout_ok 1024) s1 /\ Forall (rout_ok 1024) s2 /\
   (* two short reads, then end of file: one lbuf_edit with the concatenation "ab\ncd\n", 0 returned, the fourth result not consumed *)
   ex_rd s1 = Some (VInt 0, enc_rs [RChunk [122]%N], enc_rlog [EvRead 7 1024 4; EvRead 7 1024 2; EvRead 7 1024 0],
@@ -555,3 +556,62 @@ Proof.
   split; [repeat constructor|]. split; [repeat constructor|]. vm_compute. repeat split.
 Qed.
 End C01_translated_read.
+
+(* ------------------------------------------------------------------------------------------ *)
+(* READ-THEN-WRITE ON THE C TEXT (coq/TrReadWrite.v): the translated lbuf_rd followed by the translated lbuf_wr (C01_tr_lbuf_wr)
+   under ONE oracle: read(2) the read kernel (blocks rs, rl), write(2) / ftruncate(2) the write kernel (blocks ks, kl), lbuf_edit
+   an oracle that installs the lines of the model's split of the text it is handed (installs: afterwards lines_at holds for
+   IoDefs.split_lines of the text, in blocks older than the call of lbuf_rd or made by lbuf_edit, the kernel blocks untouched;
+   lbuf_edit itself: Properties_C04.v C04_tr_lbuf_edit, the splice under it: C01_tr_lbuf_replace above).
+   C01_tr_read_then_write: for EVERY read schedule that reaches end of file (short reads of any sizes 1..1024) and EVERY write
+   schedule without an error (short writes of any sizes), below 500 MB: lbuf_rd returns 0, lbuf_wr over all lines returns 0, the
+   bytes that reached the file (reached ev: what the write(2) calls accepted, in order) are norm f for f = the concatenation of
+   the chunks read -- f itself or f plus ONE newline --, the log ends with ftruncate(fd, |norm f|), and that is what the model
+   (IoReadDefs.read_then_write_sched, whatever the previous content of the target) computes; the read schedule is consumed up
+   to its first 0.  A schedule with a failing read: C01_tr_lbuf_rd (1 returned, buffer untouched), the model gives None. *)
+From NV Require TrReadWrite.
+Section C01_translated_roundtrip.
+Import CLite CLiteProps GenCFuncs CLiteExt IoReadDefs TrRead TrWrite TrReadWrite.
+
+Theorem C01_tr_read_then_write : forall ext ks kl rs rl m0 lb rfd wfd s lgr ws lgw d fuel,
+  read_oracle ext rs rl -> kernel_oracle ext ks kl -> ks <> rs -> ks <> rl -> kl <> rs -> kl <> rl ->
+  rworld_at rs rl m0 s lgr -> world_at ks kl m0 ws lgw ->
+  Forall (rout_ok 1024) s -> rd_ok s = true -> ~ In IoDefs.OErr ws ->
+  let f := concat (rd_chunks s) in
+  (Z.of_nat (length f) <= 500000000)%Z ->
+  (length s + 2 <= fuel)%nat -> (length ws + 2 <= fuel)%nat -> (length (split_lines f) + 2 <= fuel)%nat ->
+  edit_oracle ext lb 0 0 0 (length m0) f (installs ks kl rs rl lb (length m0) f) ->
+  exists m3 m4 ev,
+    callx ext cprog fuel (S (S (S d))) F_lbuf_rd [VPtr lb 0; VInt rfd; VInt 0; VInt 0] m0 = Ok (VInt 0, m3) /\
+    callx ext cprog fuel (S (S (S d))) F_lbuf_wr [VPtr lb 0; VInt wfd; VInt 0; VInt (Z.of_nat (length (split_lines f)))] m3 = Ok (VInt 0, m4) /\
+    nth_error m4 kl = Some (enc_log (lgw ++ ev ++ [EvTrunc wfd (Z.of_nat (length (norm f)))])) /\
+    reached ev = norm f /\ (norm f = f \/ norm f = f ++ [NL]) /\
+    (forall old, read_then_write_sched s old = Some (reached ev)) /\
+    rworld_at rs rl m4 (rd_rest s) (lgr ++ rd_log rfd s).
+Proof. exact tr_read_then_write. Qed.
+Print Assumptions C01_tr_read_then_write.
+
+(* not vacuous (an lbuf_edit that installs the lines satisfies the hypothesis), and the two translated functions RUN one after the
+   other (ex_rw: block 0 the struct lbuf, 1 / 2 the read kernel, 3 / 4 the write kernel; lbuf_edit splits the C string it is handed) *)
+Example C01_tr_read_then_write_nonvacuous :
+  let s := [RChunk [97; 98; 10; 99]%N; RChunk [100; 10; 101]%N; REof] in
+  let f := [97; 98; 10; 99; 100; 10; 101]%N in
+  let ext := rwsys 1 2 3 4 (fun _ m => Ok (VUndef, edit_fixed 0 (split_lines f) m)) in
+  read_oracle ext 1 2 /\ kernel_oracle ext 3 4 /\ concat (rd_chunks s) = f /\ rd_ok s = true /\ Forall (rout_ok 1024) s /\
+  edit_oracle ext 0 0 0 0 5 f (installs 3 4 1 2 0 5 f) /\
+  (* "ab\nc" + "d\ne" read in two short reads; written as "ab\ncd\ne\n" (one newline added) by a short write of 3 and a write of the
+     other 5 bytes, then ftruncate(8, 8) *)
+  ex_rw s [OShort 3; OOk] 3
+  = Some (VInt 0, VInt 0, enc_log [EvWrite 8 [97; 98; 10; 99; 100; 10; 101; 10]%N 3; EvWrite 8 [99; 100; 10; 101; 10]%N 5; EvTrunc 8 8]) /\
+  read_then_write_sched s [1; 2; 3; 4; 5; 6; 7; 8; 9; 10; 11; 12]%N = Some [97; 98; 10; 99; 100; 10; 101; 10]%N /\
+  (* a failing read: nothing is written by the model *)
+  read_then_write_sched [RChunk [97]%N; RErr] [] = None.
+Proof.
+  cbv zeta. split; [apply rwsys_read; discriminate|]. split; [apply rwsys_kernel; discriminate|].
+  split; [reflexivity|]. split; [reflexivity|]. split; [repeat constructor|].
+  split.
+  - apply fixed_edit_oracle; try (repeat constructor; fail).
+    cbn [In]. intros [X|[X|[X|[X|[]]]]]; discriminate.
+  - vm_compute. repeat split.
+Qed.
+End C01_translated_roundtrip.
